@@ -118,6 +118,7 @@ pub mod vfs {
     impl File {
         pub uninterp spec fn path(&self) -> PathV;
         pub uninterp spec fn snap(&self) -> Seq<u8>;      // the bytes of the version this descriptor was opened on
+        pub uninterp spec fn displaced(&self) -> bool;    // the write position was moved: writes no longer append
         // NON-ATOMIC create/truncate: only on a process-private staging name (C10)
         #[verifier::external_body]
         pub fn create<P: AsRef<Path>>(p: P, Tracked(w): Tracked<&mut World>) -> (r: std::io::Result<File>)
@@ -125,14 +126,15 @@ pub mod vfs {
             ensures final(w).root == old(w).root, final(w).lock == old(w).lock, final(w).reliable == old(w).reliable,
                 final(w).seen == old(w).seen, final(w).nlock == old(w).nlock,
                 final(w).log == old(w).log.push(Eff::Write(asp(p))),
-                r is Ok ==> r->Ok_0.path() == asp(p) && final(w).files == old(w).files.insert(asp(p), FileS { bytes: Seq::empty(), synced: false })
+                r is Ok ==> r->Ok_0.path() == asp(p) && !r->Ok_0.displaced() && final(w).files == old(w).files.insert(asp(p), FileS { bytes: Seq::empty(), synced: false })
                     && final(w).private == old(w).private.insert(asp(p)) && final(w).verified == old(w).verified.remove(asp(p)),
                 r is Err ==> same_except(final(w).files, old(w).files, set![asp(p)]) && final(w).private == old(w).private && final(w).verified == old(w).verified.remove(asp(p)),
         { unimplemented!() }
         #[verifier::external_body]
         pub fn write_all(&mut self, buf: &[u8], Tracked(w): Tracked<&mut World>) -> (r: std::io::Result<()>)
             requires old(w).private.contains(old(self).path()), is_staging(old(self).path()),
-            ensures final(self).path() == old(self).path(), final(w).root == old(w).root, final(w).lock == old(w).lock, final(w).reliable == old(w).reliable,
+                !old(self).displaced(),       // the model of write_all is APPEND: only for a handle whose position was never moved
+            ensures final(self).path() == old(self).path(), final(self).displaced() == old(self).displaced(), final(w).root == old(w).root, final(w).lock == old(w).lock, final(w).reliable == old(w).reliable,
                 final(w).seen == old(w).seen, final(w).nlock == old(w).nlock,
                 final(w).private == old(w).private, final(w).verified == old(w).verified.remove(old(self).path()),
                 final(w).log == old(w).log.push(Eff::Write(old(self).path())),
@@ -145,6 +147,11 @@ pub mod vfs {
             ensures same_ctl(*final(w), *old(w)), final(w).log == old(w).log.push(Eff::Sync(self.path())),
                 same_except(final(w).files, old(w).files, Set::empty()),
                 (r is Ok && old(w).files.contains_key(self.path())) ==> final(w).files[self.path()].synced,
+        { unimplemented!() }
+        // moving the write position changes no byte of any file (in particular it does not extend the file)
+        #[verifier::external_body]
+        pub fn seek(&mut self, pos: std::io::SeekFrom, Tracked(w): Tracked<&mut World>) -> (r: std::io::Result<u64>)
+            ensures final(self).path() == old(self).path(), final(self).displaced(), *final(w) == *old(w),
         { unimplemented!() }
         // reading: a descriptor keeps seeing the version it was opened on (live files are only replaced by rename)
         #[verifier::external_body]
